@@ -50,6 +50,7 @@ def configs(draw, exhaustive=False):
   bounce = draw(st.lists(st.integers(0, len(dests) - 1), unique=True, max_size=2)) if len(dests) > 1 else []
   return {
     'extras': extras, 'bounce': bounce,
+    'bounce_old_ports': {str(i): draw(st.sampled_from([2004, 2104, 2304])) for i in bounce if draw(st.booleans())},
     'dests': [list(d) for d in dests],
     'rf': draw(st.integers(1, 4)),
     'diverse': draw(st.booleans()),
@@ -102,9 +103,15 @@ class FakeSettings(dict):
   __getattr__ = dict.__getitem__
 
 
+def as_configured(text):
+  """A string the way a daemon gets it from carbon.conf: built at run time, equal to but not the same object as
+  any literal in the code under test."""
+  return text.encode('utf-8').decode('utf-8') if isinstance(text, str) else text
+
+
 def build_router(b, case):
   settings = FakeSettings(REPLICATION_FACTOR=case['rf'], DIVERSE_REPLICAS=case['diverse'],
-                          ROUTER_HASH_TYPE=case['hash'])
+                          ROUTER_HASH_TYPE=as_configured(case['hash']))
   settings['aggregation-rules'] = None
   cls = env.need(b.routers.DatapointRouter, 'plugins').get(case['router'])
   if cls is None:
@@ -113,15 +120,23 @@ def build_router(b, case):
   extras = [tuple(d) for d in case.get('extras', [])]
   for d in extras[:1]:
     router.addDestination(d)
-  for d in case['dests']:
-    router.addDestination(tuple(d))
+  old_ports0 = case.get('bounce_old_ports') or {}
+  for i, d in enumerate(case['dests']):
+    router.addDestination((d[0], old_ports0.get(str(i), d[1]) if i in case.get('bounce', []) else d[1], d[2]))
   for d in extras[1:]:
     router.addDestination(d)
+  if extras or case.get('bounce'):
+    # traffic before the membership changes (whatever the router memoises per node is filled by now)
+    for key in ('a.b', 'servers.web01.cpu', 'x', 'carbon.agents.h.metricsReceived', 'm.1', 'm.2', 'm.3', 'm.4'):
+      list(router.getDestinations(key))
   for d in extras:
     router.removeDestination(d)
+  old_ports = case.get('bounce_old_ports') or {}
   for i in case.get('bounce', []):
-    router.removeDestination(tuple(case['dests'][i]))
+    d = case['dests'][i]
+    router.removeDestination((d[0], old_ports.get(str(i), d[1]), d[2]))
   for i in case.get('bounce', []):
+    # an instance that comes back may listen on another port: case['dests'] holds what is configured in the end
     router.addDestination(tuple(case['dests'][i]))
   return router
 
